@@ -206,6 +206,8 @@ def check(pid, tier, seed):
             ok += 1
     # single absolute files
     ok += check_single(tool, base, verdict)
+    exe = core.build("asan")
+    ok += check_random_single(tool, exe, rnd, 300 if tier == "quick" else 5000, base, verdict)
     rc = verdict.finish()
     cov = {"states": r.distinct, "transitions": r.generated, "traces_validated_against_impl": ok,
            "evaluations": len(recs) * 3, "distinct_nontrivial": nn,
@@ -214,6 +216,66 @@ def check(pid, tier, seed):
            "exhaustive": False, "trusted_base": ["TLC 1.8.0", "gcc (plain and ASan/UBSan builds of util/econftool.c + lib)", "coreutils stdbuf"]}
     core.write_evidence(pid, tier, seed, "model_checking", cov, ["the printed layout is not compared, only the parsed triples", "edit/revert are not part of the property"], time.time() - t0, len(verdict.violations))
     return rc
+
+
+def check_random_single(tool, exe, rnd, n, base, verdict):
+    """single absolute files with random conventional content and --delimiters / --comment choices (incl. the
+    backslash escapes the tool translates): `econftool show` against what the LIBRARY delivers for the same file and
+    the documented meaning of the options (driver: econf_readFile + extended getters)."""
+    from gen import gram
+    from .core import hx
+    R = base + "/rs"
+    os.makedirs(R, exist_ok=True)
+    items = []
+    while len(items) < n:
+        D = rnd.choice(["=", "=", ":", "\t", "=\t", " ", ":=", " \t"])
+        C = rnd.choice(["#", ";"])
+        f = gram.random_file(rnd, rnd.randint(1, 10), "none", 0.0, D=D, C=C)
+        ok = True
+        for a in f["abs"]:
+            if a["t"] == "entry" and not a["val"]:
+                ok = False      # a key without value is printed without a line end by the tool: not parseable, not claimed
+            if a["t"] == "header" and (" = " in core.uncodes(a["key"]) or core.uncodes(a["key"]).endswith(" =")):
+                ok = False
+            if a["t"] in ("entry",) and 10 in a["val"]:
+                ok = False
+        if not ok:
+            continue
+        items.append((D, C, f))
+    cases = []
+    for i, (D, C, f) in enumerate(items):
+        path = "%s/r%d.conf" % (R, i)
+        open(path, "wb").write(b"\n".join(bytes(l) for l in f["lines"]) + b"\n")
+        cases.append((i, ["readfile 1 %s %s %s" % (hx(path), hx(D), hx(C)), "dumpx 1", "free 1"]))
+    res = core.run_cases(exe, cases)
+    ok = 0
+    for i, (D, C, f) in enumerate(items):
+        path = "%s/r%d.conf" % (R, i)
+        out = res.get(i)
+        if out is None or out["crash"]:
+            continue     # the library's own business (C02/C04)
+        rd = out["ev"][0]
+        if rd["rc"] != "ECONF_SUCCESS":
+            continue
+        st = out["ev"][1]["st"]
+        want = set()
+        for sec in st["secs"]:
+            for k in sec["keys"]:
+                want.add((sec["g"] or "", k["k"], tuple(v.strip() for v in (k.get("vals") or []) if v.strip() != "")))
+        darg = D.replace("\t", "\\t") if i % 2 else D      # escape form or literal tab
+        rc, text = run_tool(tool, R + "/root", ["--delimiters=" + darg, "--comment=" + C, "show", path])
+        got = set()
+        for b in parse_blocks(text):
+            for (s_, k_, vals) in b[1]:
+                got.add((s_, k_, tuple(v for v in vals if v != "")))
+        if rc != 0 or got != want:
+            verdict.violation("C19:single:random:%s" % ("escape" if i % 2 and "\t" in D else "plain"),
+                              {"kind": "single", "delims": D, "darg": darg, "comment": C, "file": core.uncodes(sum((l + [10] for l in f["lines"]), [])), "got": sorted(got), "want": sorted(want)},
+                              "econftool --delimiters=%r --comment=%r show <file>: exit %d, printed %s\nthe library (econf_readFile with these characters) delivers %s\nfile:\n%s" % (
+                                  darg, C, rc, sorted(got)[:8], sorted(want)[:8], core.uncodes(sum((l + [10] for l in f["lines"]), []))))
+        else:
+            ok += 1
+    return ok
 
 
 def check_single(tool, base, verdict):
